@@ -337,10 +337,26 @@ class Body:
                 ind = self._operand(c['indirect'], cur, pt, t['span'])
                 c = dict(c)
                 c['indirect_val'] = ind
-            v = self.new('call', args, ty=t['dest'].get('ty'), point=pt, span=t['span'], extra={'callee': c, 'bb': b, 'fn_span': t['fn_span']})
-            self.calls.append(v)
-            self.call_at[b] = v
-            self._assign(t['dest'], v, cur, pt, t['span'])
+            cpath = c.get('path') or ''
+            a0 = strip(args[0]) if args else None
+            if cpath.endswith('mem::replace') and len(args) == 2 and a0.kind == 'ref':
+                # mem::replace(&mut place, v)  ==  { let old = place; place = v; old }
+                v = self.mk_load(a0, ('*',), ty=t['dest'].get('ty'), pt=pt, span=t['span'])
+                self.stores.append(Store(a0.args[0], a0.args[1], args[1], (b, pt[1] + 0.5), t['span'], via_call=True))
+                self._assign(t['dest'], v, cur, pt, t['span'])
+            elif cpath.endswith('mem::swap') and len(args) == 2 and a0.kind == 'ref' and strip(args[1]).kind == 'ref':
+                a1 = strip(args[1])
+                x = self.mk_load(a0, ('*',), pt=pt, span=t['span'])
+                y = self.mk_load(a1, ('*',), pt=pt, span=t['span'])
+                self.stores.append(Store(a0.args[0], a0.args[1], y, (b, pt[1] + 0.5), t['span'], via_call=True))
+                self.stores.append(Store(a1.args[0], a1.args[1], x, (b, pt[1] + 0.5), t['span'], via_call=True))
+                v = self.new('const', (None, None, '()'), point=pt, span=t['span'])
+                self._assign(t['dest'], v, cur, pt, t['span'])
+            else:
+                v = self.new('call', args, ty=t['dest'].get('ty'), point=pt, span=t['span'], extra={'callee': c, 'bb': b, 'fn_span': t['fn_span']})
+                self.calls.append(v)
+                self.call_at[b] = v
+                self._assign(t['dest'], v, cur, pt, t['span'])
         elif k == 'switch':
             self.switch_discr[b] = self._operand(t['discr'], cur, pt, t['span'])
         elif k == 'assert':
